@@ -1,3 +1,4 @@
+import asyncio
 from logging import getLogger
 from typing import TYPE_CHECKING, Any, Optional
 
@@ -25,6 +26,11 @@ class Imp:
         self._callback = Callback(context=self._context)
         self._machine = StateMachine(callback=self._callback)
         self._logger = getLogger(__name__)
+
+        # Serialize the state transitions requested through the API. Otherwise,
+        # `transitions` cancels a transition in progress when another is
+        # triggered from a different task.
+        self._lock = asyncio.Lock()
 
     def __repr__(self) -> str:
         return f'<{self.__class__.__name__} {self._machine!r}>'
@@ -55,13 +61,15 @@ class Imp:
         return self._machine.state
 
     async def run(self) -> bool:
-        return await self._machine.run()
+        async with self._lock:
+            return await self._machine.run()
 
     async def wait(self) -> None:
         await self._callback.wait_for_run_finish()
 
     async def reset(self, reset_options: ResetOptions) -> bool:
-        return await self._machine.reset(reset_options=reset_options)
+        async with self._lock:
+            return await self._machine.reset(reset_options=reset_options)
 
     async def send_command(self, command: Command) -> None:
         await self._hook.ahook.send_command(context=self._context, command=command)
@@ -82,14 +90,22 @@ class Imp:
         return self._hook.hook.result(context=self._context)
 
     async def aopen(self) -> None:
-        self._logger.debug(f'self._init_options: {self._init_options}')
-        log_loaded_plugins(hook=self._hook)
-        self._hook.hook.init(context=self._context, init_options=self._init_options)
-        await self._machine.aopen()
+        async with self._lock:
+            self._logger.debug(f'self._init_options: {self._init_options}')
+            log_loaded_plugins(hook=self._hook)
+            self._hook.hook.init(
+                context=self._context, init_options=self._init_options
+            )
+            await self._machine.aopen()
 
     async def aclose(self) -> None:
-        await self.pubsub.close()
-        await self._machine.aclose()
+        async with self._lock:
+            await self.pubsub.close()
+            if self._machine.state == 'running':
+                # Wait here rather than in the transition. The transition
+                # `finish` would cancel `close` if it were in progress.
+                await self._callback.wait_for_run_finish()
+            await self._machine.aclose()
 
     async def __aenter__(self) -> 'Imp':
         await self.aopen()
